@@ -386,3 +386,119 @@ def obs_block_info(ctx, k, act, d, nv, problems):
         ctx["emit"].append({"fn": "block_info", "at": k, "mb_at": j, "use": a["use"], "snap": [list(c) for c in fn.chunks_at_call],
                             "calls": calls, "got": got, "expect": {"shape": exp["shape"], "kind": exp["kind"], "data": exp["data"]}})
         fn.calls.clear()
+
+
+# ------------------------------------------------------------------ C28 (unknown chunk sizes)
+def obs_unknown(ctx, k, act, d, nv, problems):
+    prog = ctx["prog"]
+    producers = [a for a in prog[: k + 1] if a["a"] in ("MaskSelect", "Unknown")]
+    if not producers:
+        return
+    exp = ctx["env"][k]
+    if exp["kind"] == "err":
+        return
+    resolved = int(act["a"] == "ComputeChunkSizes")
+    adv = {"shape": [], "chunks": [], "dtype": ""}
+    try:
+        with warnings.catch_warnings():
+            warnings.simplefilter("ignore")
+            adv = advertised(d)          # metadata of an operation that needs the unknown sizes may itself refuse
+            case = blocks_case(d, k, True)
+            got = spec_value(run_graph(fresh(d), True)[2])
+    except Exception as ex:
+        ctx["emit"].append({"fn": "unknown", "at": k, "expect": {"shape": exp["shape"], "kind": exp["kind"], "data": exp["data"]},
+                            "got": dict(RAISED, err=f"{type(ex).__name__}: {str(ex)[:160]}"), "adv": adv, "resolved": resolved})
+        return
+    ctx["emit"].append(case)
+    ctx["emit"].append({"fn": "unknown", "at": k, "expect": {"shape": exp["shape"], "kind": exp["kind"], "data": exp["data"]}, "got": got,
+                        "adv": adv, "resolved": resolved})
+
+
+# ------------------------------------------------------------------ C05 (entry points)
+def _try(f):
+    try:
+        with warnings.catch_warnings():
+            warnings.simplefilter("ignore")
+            return f(), None
+    except Exception as ex:
+        return None, f"{type(ex).__name__}: {str(ex)[:160]}"
+
+
+def _delayed_value(x):
+    """assemble x.to_delayed(): every block computed on its own, block shapes must tile the result"""
+    import dask
+
+    dl = x.to_delayed()
+    flat = list(np.asarray(dl, dtype=object).ravel())
+    vals = dask.compute(*flat, scheduler="sync")
+    blocks = np.empty(np.shape(dl), dtype=object)
+    for i, v in zip(np.ndindex(*np.shape(dl)), vals):
+        blocks[i] = np.asarray(v)
+    if blocks.ndim == 0:
+        return np.asarray(blocks[()])
+    return np.block(blocks.tolist())
+
+
+def entry_case(d, expect, at=0, other=None):
+    import dask
+
+    adv = {"name": str(d.name), "chunks": [[_dim(c) for c in ax] for ax in d.chunks], "dtype": str(d.dtype)}
+    entries = []
+
+    def add(entry, fval, coll=None):
+        keeps = 0
+        name, chunks, dtype = "", [], ""
+        v, err = _try(fval)
+        if coll is not None and err is None:
+            c = coll()
+            keeps = 1
+            name, chunks, dtype = str(c.name), [[_dim(q) for q in ax] for ax in c.chunks], str(c.dtype)
+        entries.append({"entry": entry, "val": spec_value(v) if err is None else dict(RAISED, err=err), "keeps": keeps, "name": name,
+                        "chunks": chunks, "dtype": dtype})
+
+    add("x.compute", lambda: fresh(d).compute(scheduler="sync"))
+    add("dask.compute", lambda: dask.compute(fresh(d), scheduler="sync")[0])
+    if other is not None:
+        add("dask.compute-with-other", lambda: dask.compute(other, fresh(d), scheduler="sync")[1])
+    box = {}
+
+    def persisted(kind):
+        def f():
+            if kind == "x.persist":
+                box[kind] = fresh(d).persist(scheduler="sync")
+            elif kind == "dask.persist":
+                box[kind] = dask.persist(fresh(d), scheduler="sync")[0]
+            elif kind == "dask.optimize":
+                box[kind] = dask.optimize(fresh(d))[0]
+            return box[kind].compute(scheduler="sync")
+        return f
+
+    for kind in ("x.persist", "dask.persist", "dask.optimize"):
+        add(kind, persisted(kind), lambda kind=kind: box[kind])
+    add("x.optimize", lambda: fresh(d).optimize().compute(scheduler="sync"))
+    add("x.to_delayed", lambda: _delayed_value(fresh(d)))
+    # diagnostic for finding F01: does the graph dask's generic path builds (dask.optimize / dask.persist hand the raw
+    # expression to dask's own optimizer) still define this collection's keys?
+    def generic():
+        from dask.base import collections_to_expr
+
+        g = collections_to_expr([fresh(d)]).__dask_graph__()
+        own = fresh(d).__dask_graph__()
+        # 1: dask's generic path builds exactly x's own (pinned) graph; 0: it builds something else
+        return int(set(g) == set(own))
+    ghk, _ = _try(generic)
+    return {"fn": "entry", "at": at, "adv": adv, "entries": entries, "generic_graph_is_own_graph": -1 if ghk is None else ghk,
+            "expect": {"shape": expect["shape"], "kind": expect["kind"], "data": expect["data"]}}
+
+
+def obs_entry(ctx, k, act, d, nv, problems):
+    exp = ctx["env"][k]
+    if exp["kind"] == "err":
+        return
+    try:
+        if any(isinstance(s, float) for s in d.shape):
+            return                       # unknown sizes: C28
+    except Exception:
+        return
+    other = next((c for c in ctx["da_env"][:-1] if c is not None and c is not d), None)
+    ctx["emit"].append(entry_case(d, exp, k, other))
